@@ -72,6 +72,9 @@ class Expr(core.Expr):
 
     _is_length_preserving = False
     _filter_passthrough = False
+    # The rows keep their labels: a predicate that reads the index of self can
+    # be evaluated on self.frame just as well
+    _keeps_index = True
 
     def _filter_passthrough_available(self, parent, dependents):
         return self._filter_passthrough and is_filter_pushdown_available(
@@ -1293,6 +1296,12 @@ class RenameSeries(Elemwise):
     _defaults = {"sorted_index": False}
     _filter_passthrough = True
 
+    @property
+    def _keeps_index(self):
+        # a scalar is the new name, everything else maps the labels
+        index = self.operand("index")
+        return is_scalar(index) and not isinstance(index, Callable)
+
     @functools.cached_property
     def _meta(self):
         args = [
@@ -1308,7 +1317,7 @@ class RenameSeries(Elemwise):
 
     def _divisions(self):
         index = self.operand("index")
-        if is_scalar(index) and not isinstance(index, Callable):
+        if self._keeps_index:
             return self.frame.divisions
         elif self.sorted_index and self.frame.known_divisions:
             old = pd.Series(1, index=self.frame.divisions)
@@ -1379,6 +1388,7 @@ class ToTimestamp(Elemwise):
     _defaults = {"freq": None, "how": "start"}
     operation = M.to_timestamp
     _filter_passthrough = True
+    _keeps_index = False
 
     def _divisions(self):
         return tuple(
@@ -1612,6 +1622,7 @@ class Abs(Elemwise):
 class RenameAxis(Elemwise):
     _projection_passthrough = True
     _filter_passthrough = True
+    _keeps_index = False  # the name is part of e.g. index.to_frame()
     _parameters = ["frame", "mapper", "index", "columns", "axis"]
     _defaults = {
         "mapper": no_default,
@@ -1643,6 +1654,7 @@ class ToFrameIndex(Elemwise):
     _keyword_only = ["name", "index"]
     operation = M.to_frame
     _filter_passthrough = True
+    _keeps_index = False  # frame is an Index, it doesn't have one
 
 
 class ToSeriesIndex(ToFrameIndex):
@@ -2227,6 +2239,7 @@ class ResetIndex(Elemwise):
     _keyword_only = ["drop", "name"]
     operation = M.reset_index
     _filter_passthrough = True
+    _keeps_index = False
 
     @functools.cached_property
     def _kwargs(self) -> dict:
@@ -2305,6 +2318,7 @@ class AddPrefixSeries(Elemwise):
     _parameters = ["frame", "prefix"]
     operation = M.add_prefix
     _filter_passthrough = True
+    _keeps_index = False
 
     def _divisions(self):
         divisions = self.frame.divisions
@@ -3911,6 +3925,11 @@ def plain_column_projection(expr, parent, dependents, additional_columns=None):
 def is_filter_pushdown_available(expr, parent, dependents, allow_reduction=True):
     if parent.frame._name != expr._name:
         # expr is (part of) the predicate, parent doesn't filter expr
+        return False
+    if not expr._keeps_index and any(
+        isinstance(e, (Index, IdxMin)) for e in parent.predicate.walk()
+    ):
+        # the predicate reads the new labels
         return False
     parents = [x() for x in dependents[expr._name] if x() is not None]
     filters = {e._name for e in parents if isinstance(e, Filter)}
